@@ -164,7 +164,8 @@ def main(argv=None):
         print("unknown property", prop, file=sys.stderr)
         return 2
     try:
-        total, viols, lines = run_property(prop, a.tier)
+        # evidence and reports describe /repo only: a developer run against another tree (ZMQ_REPO) writes nothing
+        total, viols, lines = run_property(prop, a.tier, write=(os.path.realpath(extract.REPO) == "/repo"))
     except extract.InfraError as e:
         print("INFRA-ERROR property=%s: %s" % (prop, e), file=sys.stderr)
         return 2
